@@ -640,7 +640,7 @@ class StmtMixin:
         for n_, f in enumerate(extra_inv):
             self.oblige('inv-entry', f(st), st, node, 'loop %d: iterator bounds' % k, detail='L%d.auto%d' % (k, n_))
         for n_, text in enumerate(invs):
-            self.oblige('inv-entry', self.eval_spec(text, st, alias), st, node,
+            self.oblige('inv-entry', self.spec_or_false(text, st, alias), st, node,
                         'loop %d invariant holds on entry: %s' % (k, text), detail='L%d.%d' % (k, n_))
         # ---- havoc
         octx = getattr(self, 'omp_ctx', None)
@@ -675,7 +675,7 @@ class StmtMixin:
         for n_, f in enumerate(extra_inv):
             self.oblige('inv-preserved', f(st), st, node, 'loop %d: iterator bounds' % k, detail='L%d.auto%d' % (k, n_))
         for n_, text in enumerate(invs):
-            self.oblige('inv-preserved', self.eval_spec(text, st, alias), st, node,
+            self.oblige('inv-preserved', self.spec_or_false(text, st, alias), st, node,
                         'loop %d invariant preserved: %s' % (k, text), detail='L%d.%d' % (k, n_))
         if var0 is not None:
             var1 = self.eval_spec(spec['variant'], st, alias)
@@ -704,6 +704,16 @@ class StmtMixin:
                 return
             if step:
                 step(st)
+
+    def spec_or_false(self, text, st, alias):
+        """an invariant must be defined wherever it is to be proved: where it reads something that does not exist on this path
+        (e.g. the first element of a list that is empty here) the obligation is False, provable only if the path is infeasible"""
+        try:
+            return self.eval_spec(text, st, alias)
+        except CannotBind as e_:
+            if 'undefined in the current state' not in str(e_):
+                raise
+            return z3.BoolVal(False)
 
     def prepare_loop_objects(self, node, st, hidden):
         """Before a loop is cut: objects the loop writes get their declared element kind
